@@ -8,8 +8,7 @@ impl Expr {
     { unimplemented!() }
 }
 impl Value {
-    #[verifier::external_body]
-    pub fn is_integer(&self) -> (r: bool) ensures r == (*self is Integer) { unimplemented!() }
+    // is_integer comes from interp.rs
     #[verifier::external_body]
     pub fn is_float(&self) -> (r: bool) ensures r == spec_is_float(*self) { unimplemented!() }
 }
